@@ -141,6 +141,10 @@ fn main() {
     if a.out.is_empty() {
         println!("{}", serde_json::to_string_pretty(&rep.to_json()).unwrap());
     } else {
+        let nested = hlp::NESTED_RUNS.load(std::sync::atomic::Ordering::Relaxed);
+        if nested > 0 {
+            rep.add("nested_interpreter_runs_inside_helper6_this_process", nested);
+        }
         rep.write(&a.out);
     }
 }
